@@ -225,6 +225,13 @@ def gen_case(rng, cid):
     dms = min(max(1, main["D"]) * 1000, 10 ** 7)
     focus = rng.sample(pool, min(len(pool), rng.choice([1, 1, 2, 3, 9])))
     nent = rng.randint(20, 160)
+    maps = []
+    if rng.random() < (0.6 if any(r["key"] != "-" for r in rules) else 0.15):
+        for m in rng.sample(["m", "n"], rng.choice([1, 1, 2])):
+            kv = ["%s=%s" % (k, rng.choice(pool + ["v:n:"])) for k in rng.sample(["k", "u", "z"], rng.choice([0, 1, 1, 2]))]
+            ops.append(("attmap %s %d %s" % (m, len(kv), " ".join(kv))).rstrip())
+            maps.append(m)
+        DIST["cases-with-caller-owned-attachment-map"] += 1
     reload_at = set()
     if slice_ == "inflight" or (slice_ in ("plain", "finding") and rng.random() < 0.3):
         reload_at = set(rng.sample(range(1, nent), min(nent - 1, rng.choice([1, 1, 2, 3, 4] if slice_ == "inflight" else [1, 1, 2, 3]))))
@@ -274,7 +281,23 @@ def gen_case(rng, cid):
             na = len(args)
             DIST["entry-multi-WithArgs"] += 1
         atts = []
-        if rng.random() < 0.3:
+        if maps and rng.random() < 0.1:
+            # the caller changes its own map between calls
+            m = rng.choice(maps)
+            kv = ["%s=%s" % (k, pick()) for k in rng.sample(["k", "u", "z"], rng.choice([0, 1, 1, 2]))]
+            ops.append(("attmap %s %d %s" % (m, len(kv), " ".join(kv))).rstrip())
+        if maps and rng.random() < 0.5:
+            # a caller-owned map passed as it is, with single WithAttachment options before / after it in the same call
+            atts.append("@" + rng.choice(maps))
+            for _ in range(rng.choice([0, 0, 1, 1, 2])):
+                a = "!%s=%s" % (rng.choice(["k", "u", "z"]), pick())
+                atts.insert(rng.choice([len(atts), len(atts), 0]), a)
+            if rng.random() < 0.15:
+                atts.insert(rng.randrange(len(atts) + 1), "%s=%s" % (rng.choice(["k", "u", "z"]), pick()))
+            DIST["entry-caller-owned-attachments"] += 1
+            if len(atts) > 1:
+                DIST["entry-caller-map+WithAttachment"] += 1
+        elif rng.random() < 0.3:
             for k in rng.sample(["k", "u", "z"], rng.choice([1, 1, 2])):
                 atts.append("%s=%s" % (k, pick()))
         ops.append("entry %s %d %d %s%d %s" % (res, batch, na, "".join(a + " " for a in args), len(atts), " ".join(atts)))
